@@ -47,6 +47,34 @@ CLAIMED = {
         "Trusted: ledger + reference decoder, OutstationInformation callbacks for the end of confirm waits and for the moment a broadcast is processed, simulated phys (H2), lock-point hook (H4). Deliberately unknown (not asserted): broadcast indication after a cut/pre-empted connection or a solicited CONFIRM during an unsolicited wait; restart bit of fragments in the step of a broadcast restart-write.",
         "DESIGN.md section 6 C13",
     ),
+    "C07": (
+        "S-LINK + S-OUT",
+        "deterministic simulation: seeded search over link-frame histories (all control octets x destination/source classes x roles x features) against the real link layer with a reference secondary-station table, and over foreign-master/broadcast application fragments in every session state against the real outstation",
+        "Seeded exploration (not exhaustive), two scenarios. link: histories of 1..14 frames with any of the 256 control octets, destinations own/other/self/three broadcast/reserved, endpoint and reserved sources, delivered to the real link Layer in master or outstation role with self-address on/off; after every frame the frames passed up and the reply octets are compared with a reference secondary-station table (reset/FCB state). app: valid, unsupported, mis-flagged, truncated and garbage fragments from a foreign master or to the broadcast addresses while the real outstation is idle, in solicited or in unsolicited confirm wait, with any-master/broadcast/self-address on and off: no solicited response or link reply in the step of a broadcast, no response and no mutating callback for a foreign master, replies addressed to the sender with any-master.",
+        "Trusted: reference secondary-station table (harness/props/c07.rs, from IEEE 1815 clause 9) with don't-care cells where the standard is silent (bad FCV, TEST_LINK_STATES, undefined functions); recording stubs; simulated phys (H2).",
+        "DESIGN.md section 6 C07",
+    ),
+    "C11": (
+        "S-OUT",
+        "deterministic simulation: seeded search over databases, READ requests, tx buffer sizes, confirms (right/wrong/late/missing) and updates injected between fragments and at database lock points; oracle = mirror snapshot taken at the request's select lock point + series-shape monitor",
+        "Seeded exploration (not exhaustive): the harness mirrors the database (it applies every update itself), snapshots the mirror at the select lock point of each READ, computes from the request headers the list of static objects the series must carry (existing selected points, ascending, requested or configured variation, packed variations only for plainly ONLINE points) and compares it object by object with the concatenated fragments (prefix if the series is cut short, equality at FIN); FIR/FIN/CON/sequence shape, 'next fragment only after the matching confirm sent within the confirm timeout' and 'nothing after the series ended' are monitored.",
+        "Trusted: reference decoder, the mirror (fed by the harness' own updates), lock-point hook (H4) for the snapshot instant. Points are not added or removed during a series; values are ones every variation carries exactly. Event objects in the same responses are C03's subject and skipped here.",
+        "DESIGN.md section 6 C11",
+    ),
+    "C12": (
+        "S-OUT",
+        "deterministic simulation: seeded search over requests (every function code, every header-flag combination, supported/unsupported/unknown/truncated/garbage objects, mixed multi-header requests, oversize echoes) in every session state against the real outstation; oracle = reference decoder + correlation rules + clear-cut rejection table",
+        "Seeded exploration (not exhaustive): every transmitted fragment must fit the configured tx size, decode with the reference decoder consuming every octet, carry function 129/130 with the right UNS/FIR/FIN/CON bits and a sequence number that answers a request (solicited) or continues the unsolicited numbering; CONFIRM and the no-ack functions are never answered; requests that are clear-cut rejections (function not implemented, truncated data, start>stop, unknown qualifier, definitely unknown object, WRITE of IIN other than clearing restart, non-control object in a control request, freeze of a non-counter) must be answered with IIN2 error bits.",
+        "Trusted: reference decoder and object size table, the clear-cut rejection table (kept to cases on which standard and library cannot disagree; everything else is don't-care), simulated phys (H2). Response function codes (>=129) sent as 'requests' and fragments larger than the rx buffer are outside the statement.",
+        "DESIGN.md section 6 C12",
+    ),
+    "C14": (
+        "S-OUT",
+        "deterministic simulation: seeded search over updates, enable/disable requests, right/wrong/missing confirms, requests during the wait, virtual-time advances around confirm timeout and retry delay, retry limits and reconnects; oracle = temporal monitor R1..R8 over the wire with virtual timestamps",
+        "Seeded exploration (not exhaustive): a monitor over transmitted fragments, sent requests and information callbacks in their exact order checks R1 only empty unsolicited responses (fresh sequence numbers) until one is confirmed, R2/R6 data only for enabled classes, R3 one outstanding series, R4 retries identical / not early / not more than configured, R5 next series not before the retry delay, R7 a READ received during the wait is answered after the series ends unless superseded, and the bounded-liveness rule R8 (events of an enabled class buffered, nothing outstanding, no retry delay pending => an unsolicited response was transmitted) which catches lost database-change wake-ups through the wait_for_change simulation point.",
+        "Trusted: ledger + reference decoder for the classes of reported events, OutstationInformation callbacks for the instant a confirm timer fires / a confirmation is accepted (each cross-checked against the configured timeout and the CONFIRMs actually sent), tokio paused clock. A CONFIRM sent exactly at the timeout instant ends monitoring of that run (either outcome legitimate).",
+        "DESIGN.md section 6 C14",
+    ),
     "C04": (
         "S-OUT",
         "deterministic simulation: seeded search over request histories, virtual-time advances around the select timeout, retransmissions, reconnects/pre-emption and handler answers against the real outstation task; oracle = the property's predicate evaluated on the harness' own record of the history",
@@ -99,8 +127,8 @@ def main():
             "add_only": True,
         },
         "engines": [
-            {"name": "S-LINK", "path": "harness/props/c06.rs", "serves_properties": ["C06"], "kind_free_text": "real link reader/parser/formatter over a simulated physical layer; seeded streams, faults and read plans"},
-            {"name": "S-OUT", "path": "harness/sout.rs", "serves_properties": ["C03", "C04", "C05", "C13"], "kind_free_text": "real OutstationTask (session, database, event buffer, real transport/link) run by the real ServerTask over simulated connections; scripted master peer using the reference codec; recording stubs for user callbacks; user transactions injected at database lock points (H4)"},
+            {"name": "S-LINK", "path": "harness/props/c06.rs", "serves_properties": ["C06", "C07"], "kind_free_text": "real link reader/parser/formatter (C06) and real link Layer (C07 link scenario) over a simulated physical layer; seeded streams, faults and read plans"},
+            {"name": "S-OUT", "path": "harness/sout.rs", "serves_properties": ["C03", "C04", "C05", "C07", "C11", "C12", "C13", "C14"], "kind_free_text": "real OutstationTask (session, database, event buffer, real transport/link) run by the real ServerTask over simulated connections; scripted master peer using the reference codec; recording stubs for user callbacks; user transactions injected at database lock points (H4)"},
             {"name": "S-TRANS", "path": "harness/props/c08.rs", "serves_properties": ["C08"], "kind_free_text": "two real transport writers -> frame-level fault stage -> real transport reader (link layer + assembler) over simulated phys"},
         ],
         "checks": checks,
